@@ -47,8 +47,54 @@ def renaming_histories(n, seed):
     return len(meta), fails
 
 
+def twin_runs(ctx):
+    """A second graph obtained from the first one (dictionary write/read, or a copy of its block
+    table) holds the same value-table objects unless somebody copies them: restructuring the first
+    graph further must leave the twin - its successors *and* its tables - as it was, so that the
+    twin's tables still agree with its successors."""
+    import random
+    from harness import gen
+    common.import_repo()
+    from numba_scfg.core.datastructures.scfg import SCFG
+    rng = random.Random(ctx["seed"] * 91 + 6)
+    inputs = [s for _, s in gen.graph_inputs(ctx["tier"], ctx["seed"]) if 4 <= len(s) <= 12]
+    rng.shuffle(inputs)
+    inputs = inputs[: (300 * common.boost() if ctx["tier"] == "quick" else 5000)]
+    drv = common.Driver()
+    lines, meta, fails = [], [], []
+    for succ in inputs:
+        a = export.mk_scfg(succ)
+        try:
+            a.join_returns()
+            a.restructure_loop()
+            twin, _ = SCFG.from_dict(a.to_dict())
+            t0, before = export.export(twin)
+            a.restructure_branch()
+        except Exception:  # noqa: BLE001
+            continue
+        t1, after = export.export(twin)
+        if after != before:
+            fails.append((succ, "a graph read back from the loop stage changed when the original was restructured further"))
+        lines += [f"G {t1} {after}", f"H {t1} {after}", "CHK"]
+        meta.append(succ)
+    rep = drv.run(lines) if lines else []
+    for k, succ in enumerate(meta):
+        chk = dict(kv.split("=", 1) for kv in rep[3 * k + 2].split(" ") if "=" in kv)
+        if chk.get("tables") != "1":
+            fails.append((succ, "the twin's value tables no longer agree with its successors"))
+    return len(inputs), fails
+
+
 def run(ctx):
     res = _hier.run(ctx, "C06")
+    nt, tf = twin_runs(ctx)
+    res["coverage"]["twin_runs"] = nt
+    res["coverage"]["twin_failures"] = len(tf)
+    if tf:
+        succ, why = min(tf, key=lambda f: (len(f[0]), f[0]))
+        res["violations"].append({"signature": {"stage": "twin", "clauses": why[:50]},
+                                  "what": f"C06 (shared tables): {why} ({len(tf)} of {nt} graphs)",
+                                  "payload": {"input_succ": [list(x) for x in succ], "observed": why, "count": len(tf)}})
     n, fails = renaming_histories(1500 if ctx["tier"] == "quick" else 40000, ctx["seed"])
     res["coverage"]["renaming_steps_checked"] = n
     res["coverage"]["renaming_failures"] = len(fails)
